@@ -2336,10 +2336,6 @@ class Cap(object):
                 rid_ = h.heap.get(("addrof_of", d))
                 if rid_ is not None and d in h.env and ("lval", rid_) in h.heap:
                     h.heap[("lval", rid_)] = h.env[d]
-                if rid_ is not None:
-                    # ... and the fields of a struct local handed to a helper by address are whatever the helper left in them
-                    for kx in [kx for kx in h.heap if isinstance(kx, tuple) and len(kx) == 2 and kx[0] == ("dot", d)]:
-                        del h.heap[kx]
             # memory may be written in the loop: cells read before it are no longer known
             self.forget_cells(h)
             bhkeys.clear()
